@@ -516,11 +516,18 @@ class ODVariable:
         except (TypeError, KeyError):
             pass
         temp = original_value
+        signed = self.data_type in SIGNED_TYPES
+        if signed:
+            # The bits of a signed value are those of its two's complement
+            # representation in the width of the type: bit len(self) - 1 is the sign
+            temp &= (1 << len(self)) - 1
         mask = 0
         for bit in bits:
             mask |= 1 << bit
         temp &= ~mask
         temp |= bit_value << min(bits)
+        if signed and temp >> (len(self) - 1) == 1:
+            temp -= 1 << len(self)
         return temp
 
 
